@@ -30,7 +30,7 @@ def check_tal_task(res, E, visits, only_gating=False):
     def pre(E_, st, frame):
         st.mem[(("o", selfp.id), "deref", ("f", run_fields.index("initial")))] = initial
 
-    paths = E.explore(body, max_visits=visits, inline=[r"engine::Run::load_ta$"],
+    paths = E.explore(body, max_visits=visits, max_paths=400000, inline=[r"engine::Run::load_ta$"],
                       pure=[r"subject_public_key_info$", r"Tal::key_info$"],
                       arg_values={"_1": {(): selfp}}, pre=pre, nomut=[r"."])
     n_ta = n_none = 0
@@ -135,7 +135,9 @@ def check_tal_task(res, E, visits, only_gating=False):
 def run(res, tier):
     E = mprop.engine(res)
     res.extra.setdefault("source_files_sha256", {}).update(mprop.source_hashes(["src/engine.rs", "src/store.rs"]))
-    visits = 3 if tier == "quick" else 4
+    # 3 URIs (visits 4) ran 21 min before the repair of process_tal_task (3b0276e) added error paths; afterwards it
+    # exceeded 20000 paths and, with the cap raised, 38 min without finishing: the thorough tier keeps 2 URIs
+    visits = 3
     n_ta, n_none, n_paths = check_tal_task(res, E, visits)
     res.distinct += n_ta + n_none
     res.extra["paths"] = n_paths
